@@ -62,6 +62,26 @@ def accept_queue_drained_rule(run):
               'the accept queue is emptied on every path of close(ec)')
 
 
+def acceptor_reopen_rule(run):
+    """socket::open() closes the socket first, but with static binding: re-opening an OPEN acceptor through the inherited
+    open() runs socket::close(), not acceptor::close(), so the listen state and the accept queue survive. The acceptor
+    therefore declares its own open(protocol, ec) that closes it as an acceptor (acceptor::close, which drains the queue)
+    before the socket is re-opened (shared with C11)."""
+    fx = run.fx
+    ops = [f for f in fx.fn(A + '::open', required=False) if 'error_code' in f.sig]
+    if not ops:
+        run.violation('R7', 'reopen-closes-acceptor', A + '::open', '', 'tcp::acceptor has no open() of its own: open() on an open acceptor re-opens the socket through socket::open(), whose close() does not stop listening nor empty the accept queue - a connection queued for the old endpoint is accepted after the acceptor has been bound elsewhere')
+        return
+    for f in ops:
+        run.touch(f)
+        cl = [c for c in f.calls() if q.callee_name(c) == A + '::close']
+        so = [c for c in f.calls() if (q.callee_name(c) or '') == T + '::open']
+        open_state = lambda atom: {'is_open()': True, 'm_open': True}.get(q.render(f, q.strip_casts(atom)).replace('this->', ''))
+        ok = bool(cl) and bool(so) and q.on_all_paths(f, so) and not q.exit_reachable_under(f, None, cl, open_state) and all(q.precedes(f, c_, s_) or not q.precedes(f, s_, c_) for c_ in cl for s_ in so)
+        run.check(ok, 'R7', 'reopen-closes-acceptor', f.norm + f.sig, f.loc(),
+                  'acceptor::open() re-opens an open acceptor without closing it as an acceptor first', 'an open acceptor is closed with acceptor::close() before the socket is re-opened')
+
+
 def check(run):
     fx = run.fx
     ep_readers_rule(run)
@@ -261,6 +281,8 @@ def check(run):
     p12.forwarder_rules(run, (T,))
 
     accept_queue_drained_rule(run)
+    run.clause('re-opening an acceptor resets it as an acceptor (listen state, accept queue), not only as a socket')
+    acceptor_reopen_rule(run)
     run.clause('a SYN-ACK completes only the connect it answers: the completion of m_connect_handler in incoming_packet is guarded by the packet\'s channel being the socket\'s current channel (a SYN-ACK for a cancelled connect must not complete a later connect to another acceptor)')
     ipk = fx.fn1(T + '::incoming_packet')
     run.touch(ipk)
